@@ -200,6 +200,23 @@ CHECKS.update({
     },
 })
 
+CHECKS.update({
+    "C14": {
+        "engine": "SHAPE", "category": "exploration",
+        "technique": "bounded-exhaustive enumeration over the class registry found by introspection x argument shapes per field sort (incl. nested unevaluated instances and non-SymPy attributes) x substitution maps x subs/xreplace x cse; algebraic laws checked structurally, else numerically",
+        "text": "all 46 sympy.Basic classes defined in the ampform package (35 @unevaluated, 10 helpers; new classes are picked up automatically), 866 (2834) argument shapes, ~12k (60k) substitution maps via subs and xreplace: substitution commutes with unfolding, non-SymPy attributes survive, equality/hash agree with a structural key, rebuilding from args reproduces the instance, code generated from folded and unfolded forms agrees (cse on/off)",
+        "note": "nesting one level quick / two levels thorough (large or complex-valued unfolded forms excluded from nesting: reported); only symbols are substituted; bound variables are C18's business",
+        "design": "3/C14",
+    },
+    "C15": {
+        "engine": "SHAPE", "category": "exploration",
+        "technique": "bounded-exhaustive enumeration of expression instances (C14's pool) and models (C01's space) x pickle protocols 2-5 x {same process, fresh interpreter under another hash seed}; equality, structural digests, key order and numeric values compared",
+        "text": "866 (2834) expression instances and 122 (872) models (factory + catalogue reactions x alignment x dynamics, plus re-ordered parameter mappings) are pickled and loaded back in the same process and in a fresh interpreter; every attribute must be equal (==, structural digest incl. non-SymPy attributes, srepr, key order, doit digest) and model intensities identical on lattice events",
+        "note": "pickle protocols 0/1 are refused by sympy; models with more than 24 (60) transitions not explored",
+        "design": "3/C15",
+    },
+})
+
 NOT_YET = "check not implemented yet at this commit (planned, see DESIGN.md section 7)"
 
 
